@@ -693,6 +693,105 @@ class SdpBed(Bed):
         return expect_in(self.psettle(), self.dyn_rx_cid, exp)
 
 
+class SdpClientBed(Bed):
+    """Victim = SDP *client* of the attacker.  Every frame is injected twice over: as the answer to an
+    outstanding request of the victim (transaction id patched to the pending one, request chosen to match
+    the response type) -- that is the only way a response reaches the client's element parser.  Reference
+    request = a ServiceSearch of the victim that the attacker answers properly."""
+
+    name = 'sdp_client'
+    classic = True
+
+    def bring_up(self):
+        from bumble import sdp
+
+        self.client = sdp.Client(self.v_conn)
+        self.world.run(self.client.connect())
+        ch = self.client.channel
+        self.dyn_cid = ch.source_cid  # victim's endpoint
+        self.dyn_rx_cid = ch.destination_cid  # attacker's endpoint
+        self.auto = True
+        self.last_req = None
+
+    def on_capture(self, cid, pdu):
+        if cid != self.dyn_rx_cid or len(pdu) < 5 or pdu[0] not in (2, 4, 6):
+            return
+        self.last_req = pdu
+        if self.auto and pdu[0] == 2:
+            self.att_dev.host.send_l2cap_pdu(self.handle, self.dyn_cid, W.sdp_pdu(0x03, (pdu[1] << 8) | pdu[2], struct.pack('>HHI', 1, 1, SDP_HANDLES[0]) + b'\x00'))
+
+    def step(self, chan, data):
+        from bumble.core import UUID
+
+        if chan != 'dyn' or isinstance(data, (tuple, list)):
+            return super().step(chan, data)
+        pid = data[0] if data else 7
+        c = self.client
+        if pid == 3:
+            coro = c.search_services([UUID.from_16_bits(0x1101)])
+        elif pid == 5:
+            coro = c.get_attributes(SDP_HANDLES[0], [(0, 0xFFFF)])
+        else:
+            coro = c.search_attributes([UUID.from_16_bits(0x1101)], [(0, 0xFFFF)])
+        self.auto = False
+        self.last_req = None
+        task = self.loop.create_task(coro)
+        out = Outcome()
+        self.settle(out)
+        if out.bad():
+            return out
+        req = self.last_req
+        if req is not None and len(data) >= 3:
+            data = data[:1] + req[1:3] + data[3:]
+        o2 = super().step(chan, data)
+        out.steps += o2.steps
+        out.excs += o2.excs
+        out.raised += o2.raised
+        out.replies += o2.replies
+        out.busy, out.rec, out.budget = o2.busy, out.rec or o2.rec, o2.budget
+        if out.bad():
+            return out
+        for _ in range(4):  # the victim may follow up (continuation): refuse until it gives up
+            if task.done() or self.last_req is None:
+                break
+            r = self.last_req
+            self.last_req = None
+            self.att_dev.host.send_l2cap_pdu(self.handle, self.dyn_cid, W.sdp_pdu(0x01, (r[1] << 8) | r[2], b'\x00\x04'))
+            self.settle(out)
+            if out.bad():
+                return out
+        if not task.done():
+            task.cancel()
+            self.settle(out)
+        if task.done() and not task.cancelled():
+            task.exception()  # retrieve; the outcome of the poisoned request is not judged
+        self.auto = True
+        return out
+
+    def probe(self):
+        from bumble.core import UUID
+
+        self.auto = True
+        task = self.loop.create_task(self.client.search_services([UUID.from_16_bits(0x1101)]))
+        self.last_req = None
+        self.psettle()
+        if not task.done():
+            task.cancel()
+            self.psettle()
+            return 'request_not_sent' if self.last_req is None else 'no_completion'
+        if task.cancelled() or task.exception() is not None:
+            return 'request_failed'
+        return None if list(task.result()) == [SDP_HANDLES[0]] else 'wrong_reply'
+
+    def diagnose(self, out, pout):
+        c = self.client
+        if c.pending_request is not None:
+            return 'sdp_client.pending_request_left_set'
+        if c.request_semaphore.locked():
+            return 'sdp_client.request_semaphore_held'
+        return None
+
+
 AG_INDICATOR_VALUES = (0, 1, 0, 3, 0, 5)  # call, service, callsetup, signal, roam, battchg
 
 
@@ -1089,6 +1188,50 @@ class HciLeBed(AttServerBed):
         return self.probe_cmd() or super().probe()
 
 
+class _StreamSeam:
+    """Controller -> host direction of the victim carried as a byte stream through a real
+    transport.common.PacketParser (what the serial / tcp / pty transports do): the victim Controller's
+    `host` is this object, the parser's sink is the real Host."""
+
+    def __init__(self, host):
+        from bumble.transport.common import PacketParser
+
+        self.parser = PacketParser(host)
+
+    def on_packet(self, packet: bytes):
+        self.parser.feed_data(bytes(packet))
+
+
+class _StreamMixin:
+    diag_first = True
+
+    def after_detach(self):
+        super().after_detach()
+        self.stream = _StreamSeam(self.vic.host)
+        self.world.controllers[1].host = self.stream
+
+    def send(self, chan, data):
+        if chan == 'hci':
+            # hostile controller bytes enter the stream exactly like the genuine ones (same parser state)
+            self.loop.call_soon(self.stream.parser.feed_data, bytes(data))
+        else:
+            super().send(chan, data)
+
+    def is_valid_disconnect(self, chan, data):
+        frames = data if isinstance(data, (tuple, list)) else (data,)
+        return chan == 'hci' and (W.hci_is_disconnection_complete(b''.join(frames), self.v_handle) or super().is_valid_disconnect(chan, data))
+
+    def diagnose(self, out, pout):
+        p = self.stream.parser
+        if p.state != 0 or p.bytes_needed != 1 or len(p.packet):
+            return f'hci_stream.parser_left_in_state_{p.state}_needing_{p.bytes_needed}'
+        return None
+
+
+class HciLeStreamBed(_StreamMixin, HciLeBed):
+    name = 'hci_le_stream'
+
+
 class HciClBed(ClSigBed):
     name = 'hci_cl'
     is_valid_disconnect = HciLeBed.is_valid_disconnect
@@ -1099,10 +1242,14 @@ class HciClBed(ClSigBed):
         return self.probe_cmd() or super().probe()
 
 
+class HciClStreamBed(_StreamMixin, HciClBed):
+    name = 'hci_cl_stream'
+
+
 BEDS = {
     b.name: b
     for b in (AttServerBed, AttClientBed, AttClientPendingBed, SmpBed, LeSigBed, LeCocBed, ClSigBed, SdpBed, RfcommBed, HfpAgBed, HfpHfBed, AvdtpBed, AvctpBed,
-              HciLeBed, HciClBed)
+              HciLeBed, HciClBed, HciLeStreamBed, HciClStreamBed, SdpClientBed)
 }
 
 
